@@ -19,7 +19,7 @@ PROBES = [A, Ax, Axy, Axy + b"p:q|", Ab, Az, Aw, Awx, S, Sx, Bb, C1, b"s:http|",
 
 class Check(HCheck):
     pid = ID
-    owned = ("create", "delete", "addprefix", "rmprefix", "move")
+    owned = ("create", "delete", "addprefix", "rmprefix", "move", "create_many")
     must_count = ("resolved_nested", "resolved_absent_lru", "unresolved", "refusals_checked")
 
     def spaces(self, tier):
@@ -75,6 +75,9 @@ class Check(HCheck):
         self.long_probes = [l75, l76, l148, deep, l75 + b"p:k|", l76 + b"p:k|", A + L.long_stem(77), A + L.long_stem(74), l148 + L.long_stem(75)]
         ops3 = [al.create(l75), al.create(l76), al.create(l148, deep), al.addprefix(l76 + b"p:k|", 0), al.rmprefix(l75), al.delete(0), al.page(deep + b"p:z|"), al.move(l148, 0), al.create(A)]
         sp.append(Space(Cfg("never"), ops3, 5 if thorough else 4, name="edits/long-stems"))
+        # ids beyond the small range: a caller-chosen id (the API accepts any) and 260 creations
+        big = [("create_many", Bb, 260), al.addprefix(Az, ("id", 300)), al.addprefix(Ax, ("id", 70000)), al.create(A), al.rmprefix(Az, "right"), al.rmprefix(Ax, "right"), al.rmprefix(Bb + b"p:0258|", "right"), al.move(Bb + b"p:0259|", 0, "right"), al.rmprefix(Az, "wrong"), al.delete(2)]
+        sp.append(Space(Cfg("never"), big, 3, name="edits/large-ids"))
         sp.append(Space(Cfg("domain", {A: "path1"}), ops2, 4 if thorough else 3, roots=[al.R0, al.R1], name="edits+auto/domain+path1"))
         return sp
 
